@@ -16,7 +16,7 @@ def render (segs : List Seg) (outs : List SegOut) (hs : List Hit) : Json :=
     let sc : Float := match outs[si]? with
       | some o => (match o.fl.lookup d with | some (some s) => s | _ => 0.0)
       | none => 0.0
-    Json.mkObj [("id", id), ("score", fl sc), ("seg", si), ("doc", d)]).toArray
+    Json.mkObj [("id", id), ("score", fl sc), ("bits", sc.toBits.toNat), ("seg", si), ("doc", d)]).toArray
 
 /-- `{"op":"search", …case…, "limit":n, "bmw_block_size":n|null}` →
 `{"bm25":[…],"wand":[…],"bmw":[…], flags…}` -/
